@@ -94,6 +94,9 @@ ArchStep(a, c) ==
             ELSE [state |-> [a EXCEPT !.pending = c.name], out |-> "ok"]
       [] c.m = "containing_modules" ->
             IF a.pending = "" \/ SeqToSet(c.names) \cap Assigned(a) # {} THEN [state |-> a, out |-> "error"]
+            \* an empty list supplies nothing: the layer keeps waiting for its modules (whether the call itself is
+            \* accepted or rejected is left open)
+            ELSE IF c.names = <<>> THEN [state |-> a, out |-> "either"]
             ELSE [state |-> [layers |-> Append(a.layers, [name |-> a.pending, kind |-> "names", items |-> c.names]),
                              pending |-> ""], out |-> "ok"]
       [] c.m = "have_modules_with_names_matching" ->
